@@ -277,6 +277,51 @@ def endsLoop (s o : List Nat) : Nat → Nat → R Bool
 def endsWith (s o : List Nat) : R Bool :=
   if o.length > s.length then .ok false else endsLoop s o (o.length + 1) 0
 
+/-! ## `fmt::Arguments` shapes
+
+`from_format` and `path_join_fmt` take a `core::fmt::Arguments`: a format string that is a LITERAL
+in the caller's source (`lit`, its rendered bytes) interleaved with run-time arguments (`x`, `y`).
+The code has ONE body for all of them (`alloc::fmt::format(args)` first, everything else works on
+the rendered bytes), so the model of a call with a shaped `Arguments` is the model of the call on
+the rendering.  (`Arguments::as_str()` is `Some` exactly for `FmtShape.lit`; the code as it exists
+never asks.) -/
+
+inductive FmtShape where
+  | lit          -- `format_args!(L)`
+  | litArg       -- `format_args!("L{}", x)`
+  | argLit       -- `format_args!("{}L", x)`
+  | litArgLit    -- `format_args!("L{}L", x)`
+  | arg          -- `format_args!("{}", x)`
+  | argLitArg    -- `format_args!("{}L{}", x, y)`
+  | litArgArg    -- `format_args!("L{}{}", x, y)`
+  | argArgLit    -- `format_args!("{}{}L", x, y)`
+  deriving Repr, DecidableEq
+
+/-- number of run-time arguments of a shape -/
+def FmtShape.arity : FmtShape → Nat
+  | .lit => 0
+  | .litArg | .argLit | .litArgLit | .arg => 1
+  | .argLitArg | .litArgArg | .argArgLit => 2
+
+/-- `alloc::fmt::format(args)`: the pieces in order (`Display` of a `&str` is its bytes) -/
+def render (sh : FmtShape) (lit x y : List Nat) : List Nat :=
+  match sh with
+  | .lit => lit
+  | .litArg => lit ++ x
+  | .argLit => x ++ lit
+  | .litArgLit => lit ++ x ++ lit
+  | .arg => x
+  | .argLitArg => x ++ lit ++ y
+  | .litArgArg => lit ++ x ++ y
+  | .argArgLit => x ++ y ++ lit
+
+/-- `UnixString::from_format(args)` for a shaped `Arguments` -/
+def fromFormatArgs (sh : FmtShape) (lit x y : List Nat) : R (List Nat) := fromFormat (render sh lit x y)
+
+/-- `self.path_join_fmt(args)` for a shaped `Arguments` -/
+def pathJoinFmtArgs (s : List Nat) (sh : FmtShape) (lit x y : List Nat) : R (List Nat) :=
+  pathJoinFmt s (render sh lit x y)
+
 /-! ## the code before the fixes (witnesses of the defects live in Props/C10, Props/C11) -/
 namespace Legacy
 
